@@ -76,7 +76,7 @@ def well_formed(toks):
     return True
 
 def gen_toks(rng, db_safe=False):
-    n = rng.choice([0, 1, 1, 2, 3, 4, 6])
+    n = rng.choice([1, 1, 2, 2, 3, 3, 4, 5, 6, 8]) if rng.random() > 0.02 else 0
     toks = []
     for _ in range(n):
         k = rng.random()
